@@ -99,7 +99,8 @@ pub fn profile_for(prop: Prop) -> Profile {
             p.snoop_pc = 40;
         }
         Prop::C04 => {
-            p.ops = [24, 14, 14, 10, 1, 1, 0, 2, 0, 1, 0, 2, 0];
+            p.ops = [24, 14, 14, 10, 1, 1, 0, 2, 0, 1, 8, 2, 0];
+            p.forge_valid_pc = 60;
             p.fault_max = [0, 2, 2, 0, 0, 0, 0, 0, 0, 0, 0, 3, 3, 0, 0, 0, 0];
             p.big_bodies = 6;
             p.fault_free_w = 1;
@@ -140,7 +141,8 @@ pub fn profile_for(prop: Prop) -> Profile {
             p.forge_valid_pc = 70;
         }
         Prop::C12 => {
-            p.ops = [60, 1, 1, 2, 2, 3, 1, 6, 0, 2, 0, 0, 0];
+            p.ops = [60, 1, 1, 2, 2, 3, 1, 6, 0, 2, 10, 0, 0];
+            p.forge_valid_pc = 85;
             p.req_kinds = ANSWERABLE;
             p.fault_max = [2, 2, 3, 1, 1, 0, 0, 0, 0, 0, 0, 2, 2, 0, 0, 0, 0];
             p.forge_iid_pm = 800;
